@@ -429,6 +429,37 @@ fn cli_lookup(rep: &Report, al: &Alpha) {
             }
         }
     });
+    // long keyring FILES (70 KiB / 300 KiB of comment lines before, between or after the sections): every section counts,
+    // wherever it sits in the file
+    {
+        let pad = |kib: usize| -> String { "# a comment line that pads the keyring file, nothing more ...............................\n".repeat(kib * 1024 / 90 + 1) };
+        let s_alice = secs[0].clone(); // name a, key k1 = sender 0
+        let mut cases: Vec<(String, String, Option<&str>, bool)> = vec![]; // (descr, text, expected sender name, must succeed)
+        for kib in [70usize, 300] {
+            cases.push((format!("{} KiB of comments, then sender and recipient sections", kib), format!("{}{}\n{}", pad(kib), s_alice, rc.entry(true)), Some("a"), true));
+            cases.push((format!("sender section, {} KiB of comments, recipient section", kib), format!("{}\n{}{}", s_alice, pad(kib), rc.entry(true)), Some("a"), true));
+            cases.push((format!("recipient section, {} KiB of comments, sender section", kib), format!("{}\n{}{}", rc.entry(true), pad(kib), s_alice), Some("a"), true));
+            // a duplicate name far down the file still makes the keyring bad
+            cases.push((format!("sections, {} KiB of comments, then a section repeating the name 'a' with another key", kib), format!("{}\n{}\n{}{}", s_alice, rc.entry(true), pad(kib), secs[1]), None, false));
+        }
+        cases.par_iter().for_each(|(descr, text, want, must_work)| {
+            rep.eval(1);
+            rep.nontrivial(format!("cli-long-keyring-{}", descr).as_bytes());
+            let sc = Scratch::new();
+            sc.write("kr.txt", text.as_bytes());
+            sc.write("m.ktl", &files[0]);
+            let out = proc::run(&Cmd::new(&["decrypt", "m.ktl", "-t", "rcpt", "-k", "kr.txt", "-o", "out.bin", "--env-pass"]).env("KESTREL_PASSWORD", "rcpt-pw"), &sc.0);
+            let case = json!({"kind":"cli-lookup","long_keyring":descr});
+            let named: Option<String> = out.stderr.lines().find_map(|l| l.split_once("File from: ").map(|x| x.1.to_string()));
+            if let Err(e) = out.well_behaved() {
+                rep.violation("cli-lookup/ill-behaved", case, e);
+            } else if *must_work && (!out.ok() || named.as_deref() != *want) {
+                rep.violation("cli-lookup/long-keyring-section-ignored", case, format!("keyring file = {}: kestrel decrypt exit {:?}, sender reported {:?}, expected {:?}", descr, out.code, named, want));
+            } else if !*must_work && out.ok() {
+                rep.violation("cli-lookup/long-keyring-bad-section-ignored", case, format!("keyring file = {}: accepted (exit 0) although the file is not a well-formed keyring", descr));
+            }
+        });
+    }
     // the entry used as the recipient (-t) has a PublicKey whose checksum does not match, or that is a well-formed
     // encoding of ANOTHER key: "an encoded public key is usable only if its 4-byte checksum matches" -> decrypt must refuse
     {
